@@ -5,6 +5,8 @@ of NX-table layouts.  Everything is JSON-able; all randomness comes from the rng
 AST (lists, so that it survives JSON):
   expr : ["num", text] | ["str", text, quoted] | ["var", n] | ["attr", obj, prop] | ["neg", a] | ["add"|"sub"|"mul"|"div", a, b]
          | ["pow", a, k] | ["sqrt", a] | ["abs", a]
+         | ["rpn", ["add"|"sub"|"mul"|"div", a, b]]   only as a whole property / variable value: the SAME tree, written in reverse
+           Polish notation `A B op` (what cheetah's rpn.py accepts: three blank-separated tokens, the operands blank-free infix)
   stmt : ["var", n, e] | ["def", n, parent_or_type, [[prop, e], ...]] | ["prop", ["name", n] | ["wild", ty, pat], prop, e]
          | ["line", n, [items]] | ["use", n]
 """
@@ -184,10 +186,32 @@ def level(e):
     return LEVEL.get(e[0], 5)
 
 
+RPN_BLANK = "\x00"      # a blank that is part of the syntax (between the tokens of an RPN expression): render_program never cuts a
+#                        line in front of it, never pads it, and writes it as one " " at the very end
+RPN_OPEN, RPN_CLOSE = "\x01", "\x02"   # brackets of an RPN expression in the intermediate text (removed at the end): white space inside is
+#                                       syntax, so a line cut in there gets the bare mark `&`
+RPN_OPS = {"add": "+", "sub": "-", "mul": "*", "div": "/"}
+
+
+def rpn_plain(t):
+    return t.replace(RPN_BLANK, " ").replace(RPN_OPEN, "").replace(RPN_CLOSE, "")
+
+
+def render_rpn(e):
+    """`A B op` for a binary node: the operands are blank-free infix texts, parenthesised so that python's reading of `A op B`
+    (what rpn.eval_expression evaluates) is the tree."""
+    lv = LEVEL[e[0]]
+    return RPN_OPEN + render_expr(e[1], None, lv) + RPN_BLANK + render_expr(e[2], None, lv + 1) + RPN_BLANK + RPN_OPS[e[0]] + RPN_CLOSE
+
+
 def render_expr(e, rng=None, need=0):
     """Infix text with the usual precedences ( ^ over unary minus over * / over + - ; left associative )."""
     sp = (lambda: rng.choice(["", "", " "])) if rng else (lambda: "")
     k = e[0]
+    if k == "rpn":
+        assert need == 0, "an RPN expression is a whole value"
+        _style_count("style_rpn_expression_" + e[1][0])
+        return render_rpn(e[1])
     if k == "num":
         s = e[1]
     elif k == "str":
@@ -234,6 +258,8 @@ def num_value(text):
 
 def coq_expr(e):
     k = e[0]
+    if k == "rpn":                       # the same tree: only the spelling differs
+        return coq_expr(e[1])
     if k == "num":
         return "(ENum %s)" % flit(num_value(e[1]))
     if k == "str":
@@ -353,7 +379,13 @@ def render_program(prog, rng, style=None):
             else:
                 j = rng.randrange(1, len(t))                 # `&` continuation at an arbitrary position
                 a, b = t[:j], t[j:]
-                if not b.strip() or not a.strip():
+                if not rpn_plain(b).strip() or not rpn_plain(a).strip():
+                    continue
+                if b[:1] == RPN_BLANK:
+                    continue                                 # the blank would be stripped from the head of the next line
+                if a.count(RPN_OPEN) > a.count(RPN_CLOSE):   # inside an RPN expression: no white space may be added
+                    pieces[i:i + 1] = [a + RPN_CLOSE + "&", RPN_OPEN + b]
+                    _style_count("style_line_cut_inside_rpn_expression")
                     continue
                 # white space in front of the mark stays in the statement: only where white space is neutral
                 # (white space in front of a comma -- the first one of a definition included -- is neutral once F40 is repaired)
@@ -362,7 +394,7 @@ def render_program(prog, rng, style=None):
                 mark = rng.choice(["&", " &", "  &"]) if roomy else "&"
                 pieces[i:i + 1] = [a + mark, b]
         for n, p in enumerate(pieces):
-            line = rng.choice(["", "", " ", "\t", "   "]) + p + rng.choice(["", "", " ", "  "])
+            line = rng.choice(["", "", " ", "\t", "   "]) + rpn_plain(p) + rng.choice(["", "", " ", "  "])
             if rng.random() < p_comment:
                 line += rng.choice(["!", " !", "  ! "]) + rng.choice(COMMENTS)
             out.append(line)
@@ -425,10 +457,34 @@ def gen_props(rng, env, table, ty, depth, drop_required=False):
     return ps
 
 
-def gen_program(rng, flavour, size=8, depth=3, nest=5):
+def rpn_spell(rng, e, share):
+    """With probability `share`, a value whose tree is a binary node is spelled in RPN (same tree)."""
+    if e[0] in RPN_OPS and rng.random() < share:
+        return ["rpn", e]
+    return e
+
+
+def spell_rpn_program(rng, prog, share):
+    """Elegant programs: a share of the variable / property values whose tree is a binary node is written in reverse Polish
+    notation (in place; the tree, hence the Coq term, is unchanged)."""
+    for s in prog:
+        if s[0] == "var":
+            s[2] = rpn_spell(rng, s[2], share)
+        elif s[0] == "def":
+            for pe in s[3]:
+                pe[1] = rpn_spell(rng, pe[1], share)
+        elif s[0] == "prop":
+            s[3] = rpn_spell(rng, s[3], share)
+
+
+def gen_program(rng, flavour, size=8, depth=3, nest=5, deep=False, rpn=0.0):
     """A well-formed program: returns dict(flavour, root, prog).  Statement order is a valid execution order in which
     lines may precede the elements they contain (lines are resolved at conversion time) but parents / read attributes /
-    variables precede their uses."""
+    variables precede their uses.
+    deep: the lines form a chain root -> ... at least three levels deep (each new line contains the previous one, once or
+    twice, among other members), so that sub-lines of sub-lines, repeated sub-lines and the element types that import as small
+    Segments (moni with l, ecol, rcol, ecollimator, rcollimator) sit at depth >= 3.
+    rpn: share of the binary-node values written in reverse Polish notation (Elegant)."""
     table = tables(flavour)
     used = set()
     env = {"vars": [], "attrs": []}
@@ -529,16 +585,33 @@ def gen_program(rng, flavour, size=8, depth=3, nest=5):
     lines = []
     n_lines = rng.randrange(1, nest + 2)
     levels = []
+    if deep:
+        n_lines = max(n_lines, rng.choice([3, 3, 4, 4, 5]))
+        segty = [t for t in ("moni", "ecol", "rcol", "ecollimator", "rcollimator") if t in table]
+        if not any(elems[n] in segty for n in elem_names) or rng.random() < 0.5:
+            ty = rng.choice(segty)                                   # an element that imports as a small Segment (one more level)
+            nm = fresh_name(rng, used)
+            ps = [["l", gen_nonzero(rng, {"vars": [], "attrs": []})]] + ([[rng.choice(table[ty][1][1:]), ["num", num_text(rng)]]] if len(table[ty][1]) > 1 and rng.random() < 0.5 else [])
+            prog.append(["def", nm, ty, ps])
+            elems[nm] = ty
+            elem_names.append(nm)
+        seg_elems = [n for n in elem_names if elems[n] in segty]
     for k in range(n_lines):
         ln = fresh_name(rng, used)
         pool = list(elem_names)
         lower = [l for l, lv in levels]
         items = []
         for _ in range(rng.randrange(1, 7)):
-            if lower and rng.random() < 0.4:
+            if deep and not levels and rng.random() < 0.3:
+                items.append(rng.choice(seg_elems))                  # ... placed in the innermost line
+            elif lower and rng.random() < (0.15 if deep else 0.4):
                 items.append(rng.choice(lower))
             else:
                 items.append(rng.choice(pool))
+        if deep and levels:
+            deepest = max(levels, key=lambda x: x[1])[0]
+            for _ in range(rng.choice([1, 1, 2])):                   # the deepest line so far, once or twice, anywhere
+                items.insert(rng.randrange(0, len(items) + 1), deepest)
         if items and rng.random() < 0.3:
             items.append(rng.choice(items))                          # repeated member
         lv = 1 + max([lvv for l, lvv in levels if l in items] or [0])
@@ -561,6 +634,8 @@ def gen_program(rng, flavour, size=8, depth=3, nest=5):
             other = rng.choice([l for l, _ in levels])
             idx = max(i for i, s in enumerate(prog) if s == ["use", root])
             prog.insert(rng.randrange(0, idx + 1), ["use", other])  # an earlier `use` is overridden
+    if rpn and flavour == "elegant":
+        spell_rpn_program(rng, prog, rpn)
     return {"flavour": flavour, "root": root, "prog": prog}
 
 
